@@ -577,6 +577,11 @@ def run_lines(exe, lines, timeout=600, env=None, prefix=(), restarts=0):
             return out_all + res
         res = res[:len(todo)]
         died = "DRIVER-DIED rc=%d %s" % (rc, err.strip()[-300:].replace("\n", " | "))
+        if rc == 124:
+            # no answer within the time limit: the case does not terminate; do not wait as long again for the ones after it
+            died = "DRIVER-DIED rc=124 no answer within %d s (the case does not terminate) %s" % (timeout, err.strip()[-200:].replace("\n", " | "))
+            timeout = min(timeout, 60)
+            restarts = min(restarts, 3)
         if restarts <= 0 or len(res) + 1 >= len(todo):
             return (out_all + res + [died] + ["<no answer>"] * (len(todo) - len(res) - 1))[:len(lines)]
         out_all += res + [died]
